@@ -145,6 +145,20 @@ for prop, title, names in [
            C, "Ebu.Conc", "Ebu.Conc", ["Ebu.Spec.Conc", "Ebu.Proofs.Conc"], names)
 # properties whose concurrent clauses rest on lock facts of the current source (C03's obligations)
 EXTRAS = {
+ "C06": ("Ebu.Proofs.Shutdown", """/-- Shutdown returns nil (or the store's close error) only when no asynchronous work is in
+flight, and only then – exactly once – closes the store; when it returns the context's error it
+has not closed it -/
+theorem shutdown_spec (s s' : Ebu.Shutdown.S) (pick : Bool) (o : Ebu.Shutdown.Outcome)
+    (h : Ebu.Shutdown.shutdown s pick = some (s', o)) :
+    (o = .nil_ ∨ o = .closeError → s.inflight = 0 ∧ s'.closes = s.closes + (if s.hasCloser then 1 else 0)) ∧
+    (o = .ctxError → s.cancelled = true ∧ s' = s) ∧ s'.inflight = s.inflight :=
+  Ebu.Shutdown.shutdown_spec s s' pick o h
+
+/-- … and it blocks exactly while work is in flight and the context is live -/
+theorem shutdown_blocks_iff (s : Ebu.Shutdown.S) (pick : Bool) :
+    Ebu.Shutdown.shutdown s pick = none ↔ (s.inflight ≠ 0 ∧ s.cancelled = false) :=
+  Ebu.Shutdown.shutdown_blocks_iff s pick
+"""),
  "C09": ("Ebu.Props.C03", """/-- N publishes from any number of goroutines give N records with strictly increasing offsets
 because `persistEvent` calls `store.Append` and updates `lastOffset` inside one `storeMu` critical
 section in the CURRENT source (fact table regenerated from persist.go on every run): appends are
